@@ -92,6 +92,8 @@ def child(order: int, ham: bool, ev: bool):
         except Exception as ex:  # noqa
             say(case=cls, phase="end", outcome="raises", exc=type(ex).__name__, msg=str(ex)[:160], wall=round(time.time() - t0, 2))
     say(case="-", phase="finished")
+    import shutil
+    shutil.rmtree(common.WORK, ignore_errors=True)
 
 
 # --------------------------------------------------------------------------------------
